@@ -203,7 +203,10 @@ def params_s(draw) -> dict[str, Any]:
     mand = draw(st.sampled_from([["DiagnosticSessionControl"], ["DiagnosticSessionControl", "TesterPresent", "ReadDataByIdentifier"],
                                  ["DiagnosticSessionControl", "SecurityAccess", "EcuReset", "RoutineControl"], ALL_SERVICE_NAMES[:19]]))
     out["mandatory_services"] = mand
-    out["optional_services"] = [s for s in draw(st.sampled_from([[], ALL_SERVICE_NAMES, ALL_SERVICE_NAMES[:10]])) if s not in mand]
+    # the optional list may name mandatory services as well (as the default optional list does once --mandatory-services is
+    # extended): mandatory wins
+    overlap = draw(st.booleans())
+    out["optional_services"] = [s for s in draw(st.sampled_from([[], ALL_SERVICE_NAMES, ALL_SERVICE_NAMES[:10]])) if overlap or s not in mand]
     return out
 
 
